@@ -791,8 +791,12 @@ func (i *biterator) SeekGE(item *kvitem) {
 	}
 }
 
+// SeekForPrev seeks to the last item less than or equal to key.
+// SeekLT is exclusive, so seek below the immediate successor of key.
 func (i *biterator) SeekForPrev(key []byte) {
-	i.SeekLT(&kvitem{key: key})
+	succ := make([]byte, len(key)+1)
+	copy(succ, key)
+	i.SeekLT(&kvitem{key: succ})
 }
 
 // SeekLT seeks to the first item less-than the provided item.
